@@ -364,8 +364,9 @@ fn special_names(ctx: &Ctx) -> Vec<(Case, bool)> {
 }
 
 pub fn run(ctx: &Ctx) {
-    ctx.set_rule("all histories of length <= 2 (quick; length 3 sampled; thorough: length 3 complete) over 61 operations on keys {a, b, A, 'a b', '', 1, é, aa}: insert / overwrite by [k] and .k, op-assign by both paths (present and missing key), read by both paths, {o.., k: v}, {k: v, o..}, merge of two spreads, computed keys, from two start objects, each history followed by print, for, == against a second object and a spread copy; all insertion orders of up to 5 keys from 4 key sets compared with the literal; a catalogue of literal forms (duplicates, shorthand, computed names, evaluation order, overlapping spreads); the .k <-> [\"k\"] rewriting of every history; property names that coincide with type functions / the built-in / other words, missing and present, through both paths; oracle: reference map model (byte order) and the rewriting relation; `.k` against `[\"k\"]` as targets inside patterns and interpolated literals as computed names (value and rewritten twin). Non-trivial = >= 2 operations (out-of-order insertions, overwrites, collisions, non-identifier keys occur in nearly all); distinct = distinct source texts");
+    ctx.set_rule("all histories of length <= 2 (quick; length 3 sampled; thorough: length 3 complete) over 61 operations on keys {a, b, A, 'a b', '', 1, é, aa}: insert / overwrite by [k] and .k, op-assign by both paths (present and missing key), read by both paths, {o.., k: v}, {k: v, o..}, merge of two spreads, computed keys, from two start objects, each history followed by print, for, == against a second object and a spread copy; all insertion orders of up to 5 keys from 4 key sets compared with the literal; a catalogue of literal forms (duplicates, shorthand, computed names, evaluation order, overlapping spreads); the .k <-> [\"k\"] rewriting of every history; property names that coincide with type functions / the built-in / other words, missing and present, through both paths; oracle: reference map model (byte order) and the rewriting relation; `.k` against `[\"k\"]` as targets inside patterns and interpolated literals as computed names (value and rewritten twin). 9 set-ups that make one value reachable by two routes (two properties, property and variable, spread copy, rows of a grid, through a call) x `slot += v` through a property / index / element, once and twice: contents and all of == != === !== against the other route and an independent copy (reference run). Non-trivial = >= 2 operations (out-of-order insertions, overwrites, collisions, non-identifier keys occur in nearly all); distinct = distinct source texts");
     ctx.replay_corpus(None);
+    ctx.judge_all(crate::props::common::slot_op_assign_cases(ctx, "C12"), Via::Cli, None);
     ctx.judge_all(literal_cases(ctx), Via::Cli, None);
     ctx.judge_all(insertion_orders(ctx), Via::Cli, None);
     ctx.judge_all(special_names(ctx), Via::Cli, None);
